@@ -25,16 +25,7 @@ REL = 1e-12
 PRIMES = [2, 3, 5, 7, 11, 13, 17, 19, 23, 29, 31, 37, 41, 43, 47, 53, 59, 61, 67, 71]
 BAND = 'nonuniform:W/3<=gap<W/2'
 
-# Proposed known_findings.json entry for ledger item L-C13b (a design decision for the maintainers, not repaired).
-KNOWN_C13B = {
-    'property': 'C13', 'id': 'L-C13b', 'status': 'known',
-    'clause': r'binning_commutes',
-    'cls': r'.*nonuniform:W/3<=gap<W/2|trace:band',
-    'what': 'clip margin W of clip_native_to_wngrid is too small for NON-uniform native grids whose spacing lies in '
-            '[W/3, W/2): FluxBinner recomputes the mid-point width of the first/last retained native point after the '
-            'clip, so binned(clipped) != binned(full) although the stated width condition holds (TLC counterexample: '
-            'native <<0,3,4>>, observation centres <<7,8,15,21>>, widths 6.5)',
-}
+# Ledger item L-C13b (a design decision for the maintainers, not repaired) is listed in known_findings.json.
 
 
 # ----------------------------------------------------------------------------
@@ -485,8 +476,6 @@ def run(ctx):
                        'cross-section tables constant in T and P (the T,P interpolation is the subject of C04)',
                        'TLC + CommunityModules Json/IOUtils']
     t = ctx.tier
-    if not any(f.get('id') == KNOWN_C13B['id'] for f in ctx.findings):
-        ctx.findings.append(KNOWN_C13B)      # proposed entry, see tools/reports/C13.md (known_findings.json is not ours to edit)
     # ---- all TLC runs are independent: start them together, consume in order
     jobs = [('sel-repaired', 'MC_GridSel', 'MC_GridSel_widened_%s.cfg' % t, 8, None),
             ('sel-asbuilt-own-points', 'MC_GridSel', 'MC_GridSel_filtered_own.cfg', 4, None),
@@ -544,8 +533,6 @@ def run(ctx):
 def replay(ctx, violations):
     rng = random.Random(1)
     tr = []
-    if not any(f.get('id') == KNOWN_C13B['id'] for f in ctx.findings):
-        ctx.findings.append(KNOWN_C13B)
     for v in violations:
         vec = v['vector']
         kind = vec.get('kind')
